@@ -55,6 +55,9 @@ func deriveKey(passphrase []byte) []byte {
 
 // DecryptAES decrypts AES payload using the nonce and the passphrase
 func DecryptAES(nonce, payload, passphrase []byte) ([]byte, error) {
+	if len(nonce) != nonceLen {
+		return nil, errors.New("invalid nonce length")
+	}
 	key := deriveKey(passphrase)
 	b, err := aes.NewCipher(key)
 	if err != nil {
